@@ -1126,11 +1126,11 @@ func parseReferenceEntryText(id githash.Hash, text string) (*ReferenceEntry, err
 	entry := &ReferenceEntry{ID: id}
 	state := expectRef
 	for _, line := range body {
-		key, value, ok := strings.Cut(strings.TrimSpace(line), ":")
+		key, value, ok := strings.Cut(trimEntrySpace(line), ":")
 		if !ok {
 			return nil, ErrInvalidRSLEntry
 		}
-		key, value = strings.TrimSpace(key), strings.TrimSpace(value)
+		key, value = trimEntrySpace(key), trimEntrySpace(value)
 
 		switch key {
 		case RefKey:
@@ -1200,7 +1200,7 @@ func parseAnnotationEntryText(id githash.Hash, text string) (*AnnotationEntry, e
 
 	state := expectEntryID
 	for _, line := range body {
-		line = strings.TrimSpace(line)
+		line = trimEntrySpace(line)
 		if line == BeginMessage {
 			break
 		}
@@ -1209,7 +1209,7 @@ func parseAnnotationEntryText(id githash.Hash, text string) (*AnnotationEntry, e
 		if !ok {
 			return nil, ErrInvalidRSLEntry
 		}
-		key, value = strings.TrimSpace(key), strings.TrimSpace(value)
+		key, value = trimEntrySpace(key), trimEntrySpace(value)
 
 		switch key {
 		case EntryIDKey:
@@ -1275,11 +1275,11 @@ func parsePropagationEntryText(id githash.Hash, text string) (*PropagationEntry,
 	entry := &PropagationEntry{ID: id}
 	state := expectRef
 	for _, line := range body {
-		key, value, ok := strings.Cut(strings.TrimSpace(line), ":")
+		key, value, ok := strings.Cut(trimEntrySpace(line), ":")
 		if !ok {
 			return nil, ErrInvalidRSLEntry
 		}
-		key, value = strings.TrimSpace(key), strings.TrimSpace(value)
+		key, value = trimEntrySpace(key), trimEntrySpace(value)
 
 		switch key {
 		case RefKey:
@@ -1342,6 +1342,14 @@ func entryBody(text, header string) ([]string, error) {
 		return nil, ErrInvalidRSLEntry
 	}
 	return lines[2:], nil
+}
+
+// trimEntrySpace trims the ASCII whitespace that may surround a key or a value
+// in an entry's text. Unlike strings.TrimSpace it leaves non-ASCII space
+// characters (U+0085, U+00A0, ...) alone: those are valid at either end of a
+// Git reference name or an upstream location and must survive a round trip.
+func trimEntrySpace(s string) string {
+	return strings.Trim(s, " \t\r\n\v\f")
 }
 
 func setHash(dst *githash.Hash, value string) error {
